@@ -360,6 +360,27 @@ def mutate_tokens(rng, text, n=1):
     return " ".join(toks)
 
 
+C_KEYWORDS = set("""auto break case char const continue default do double else enum extern float for goto if inline int long register restrict return short signed
+sizeof static struct switch typedef union unsigned void volatile while _Alignas _Alignof _Atomic _Bool _Complex _Generic _Noreturn _Static_assert _Thread_local
+__attribute__ __extension__ __typeof__ typeof asm __asm__ __inline__ __restrict __const __volatile__""".split())
+
+
+def mutate_identifiers(rng, text, n=1):
+    """n times: ONE occurrence of an identifier is replaced by another identifier of the same text.  The program stays well-formed for the parser
+    most of the time and becomes semantically odd: a parameter spelled like a typedef name used next to it, a member like its tag, a variable
+    redeclared as a type, a use of a name in the wrong role, self-referential types (seeded change C02-c needed a parameter named like a typedef)"""
+    import re
+    for _ in range(n):
+        occ = [m for m in re.finditer(r"[A-Za-z_]\w*", text) if m.group(0) not in C_KEYWORDS]
+        names = sorted({m.group(0) for m in occ})
+        if len(names) < 2:
+            return text
+        m = rng.choice(occ)
+        other = rng.choice([x for x in names if x != m.group(0)])
+        text = text[:m.start()] + other + text[m.end():]
+    return text
+
+
 def mutate_bytes(rng, text, n=1):
     b = bytearray(text.encode())
     for _ in range(n):
